@@ -13,6 +13,7 @@ import (
 	"unsafe"
 
 	"github.com/gofiber/fiber/v3"
+	"github.com/gofiber/fiber/v3/middleware/timeout"
 
 	"verif.local/sim/harness"
 	"verif.local/sim/simrt"
@@ -116,6 +117,11 @@ type bindC struct {
 type bindF struct {
 	F string `form:"f"`
 	G string `form:"g"`
+}
+type bindU struct {
+	ID   string   `uri:"id"`
+	Name string   `uri:"name"`
+	IDs  []string `uri:"id"`
 }
 type bindJ struct {
 	Name string `json:"name"`
@@ -341,9 +347,37 @@ func (w *ksWorld) build(cfg fiber.Config) *fiber.App {
 			}
 		}
 	}
-	app.Get("/u/:id/:name?", func(c fiber.Ctx) error { final(c, nil); return c.SendString("user") })
-	app.Get("/w/*", func(c fiber.Ctx) error { final(c, nil); return c.SendString("wild") })
-	app.Get("/files/:dir/+", func(c fiber.Ctx) error { final(c, nil); return c.SendString("plus") })
+	app.Get("/u/:id/:name?", func(c fiber.Ctx) error {
+		var u bindU
+		err := c.Bind().URI(&u)
+		final(c, func(m map[string]string) {
+			m["BindURI"] = strings.Clone(fmt.Sprintf("%+v err=%v", u, err != nil))
+		})
+		return c.SendString("user")
+	})
+	// a handler behind the timeout middleware that does not watch its context and writes late
+	app.Get("/slow", timeout.New(func(c fiber.Ctx) error {
+		id := opID(c)
+		final(c, nil)
+		if d := fiber.Query[int](c, "d"); d > 0 {
+			simrt.Sleep(time.Duration(d) * time.Millisecond)
+		}
+		c.Set("X-Late", "late-"+strconv.Itoa(id))
+		return c.SendString("slow-" + strconv.Itoa(id))
+	}, 50*time.Millisecond))
+	// the same struct bound on routes that declare other parameters: its fields must stay empty there
+	uriBound := func(body string) fiber.Handler {
+		return func(c fiber.Ctx) error {
+			var u bindU
+			err := c.Bind().URI(&u)
+			final(c, func(m map[string]string) {
+				m["BindURI"] = strings.Clone(fmt.Sprintf("%+v err=%v", u, err != nil))
+			})
+			return c.SendString(body)
+		}
+	}
+	app.Get("/w/*", uriBound("wild"))
+	app.Get("/files/:dir/+", uriBound("plus"))
 	app.All("/bind", func(c fiber.Ctx) error {
 		var q bindQ
 		var hh bindH
@@ -496,6 +530,10 @@ func ksGenerate(s *simrt.Sim, nconn int, flashValid string) []*ksReq {
 		case 15:
 			r.kind = "unknown-method"
 			method, path = "BREW", "/coffee"
+			if s.Chance(500) {
+				r.kind = "slow"
+				method, path = "GET", "/slow?d="+simrt.PickS(s, "0", "20", "200", "700")
+			}
 		case 0:
 			r.kind = "user"
 			a, b := seg(), seg()
